@@ -371,7 +371,21 @@ fn expr_json(e: &syn::Expr) -> Value {
         Continue(_) => json!({"k":"continue"}),
         Try(t) => json!({"k":"try","e":expr_json(&t.expr)}),
         Cast(c) => json!({"k":"cast","e":expr_json(&c.expr),"ty":toks(&*c.ty)}),
-        Macro(m) => json!({"k":"macro","path":toks(&m.mac.path).replace(' ', ""),"tokens":m.mac.tokens.to_string()}),
+        Macro(m) => {
+            let path = toks(&m.mac.path).replace(' ', "");
+            let mut v = json!({"k":"macro","path":path,"tokens":m.mac.tokens.to_string()});
+            if path == "vec" {
+                // vec![e; n]  or  vec![a, b, c]
+                if let Ok(rep) = syn::parse2::<syn::ExprRepeat>(proc_macro2::TokenStream::from(proc_macro2::TokenTree::Group(
+                        proc_macro2::Group::new(proc_macro2::Delimiter::Bracket, m.mac.tokens.clone())))) {
+                    v = json!({"k":"vec_repeat","e":expr_json(&rep.expr),"len":expr_json(&rep.len)});
+                } else if let Ok(arr) = syn::parse2::<syn::ExprArray>(proc_macro2::TokenStream::from(proc_macro2::TokenTree::Group(
+                        proc_macro2::Group::new(proc_macro2::Delimiter::Bracket, m.mac.tokens.clone())))) {
+                    v = json!({"k":"vec_list","elems":arr.elems.iter().map(expr_json).collect::<Vec<_>>()});
+                }
+            }
+            v
+        }
         Struct(s) => json!({"k":"struct","path":toks(&s.path).replace(' ', ""),
             "fields":s.fields.iter().map(|f| json!({"member":toks(&f.member),"e":expr_json(&f.expr)})).collect::<Vec<_>>(),
             "rest": s.rest.as_ref().map(|r| expr_json(r))}),
